@@ -34,6 +34,11 @@ func (core *JApiCore) processInclude(keyword *scanner.Lexeme) *jerr.JApiError {
 		return je
 	}
 
+	if core.isRootFile(path) {
+		// the root file is a part of every chain of INCLUDEs
+		return japiErrorForLexeme(keyword, jerr.RecursionIsProhibited)
+	}
+
 	file, err := readFile(path)
 	if err != nil {
 		return japiErrorForLexeme(keyword, fmt.Sprintf("%s (%s) %s", jerr.IncorrectParameter, "Filename", err))
@@ -45,6 +50,14 @@ func (core *JApiCore) processInclude(keyword *scanner.Lexeme) *jerr.JApiError {
 	core.scanner = scanner.NewJApiScanner(file)
 
 	return nil
+}
+
+func (core *JApiCore) isRootFile(path string) bool {
+	root := core.scanner
+	if !core.scannersStack.Empty() {
+		root = core.scannersStack.Bottom()
+	}
+	return filepath.Clean(root.File().Name()) == path
 }
 
 func (core *JApiCore) getIncludedFilePath(keyword *scanner.Lexeme) (string, *jerr.JApiError) {
